@@ -1138,6 +1138,10 @@ func (pc ParseContext) compileDictEntryExprs(ctx context.Context, b ast.Branch) 
 			if nestedOp != nil && !isMerging(ctx) {
 				return nil, errMergeSyntacticSugar(pair.Scanner())
 			}
+			if pair.One("key") == nil {
+				// ...rest is pattern syntax
+				return nil, fmt.Errorf("dict entry without a key: %s", pair.Scanner().Context(parser.DefaultLimit))
+			}
 			key := pair.One("key")
 			value := pair.One("value")
 			keyExpr, err := pc.CompileExpr(ctx, key.(ast.Branch))
@@ -1400,6 +1404,10 @@ func (pc ParseContext) compileTuple(ctx context.Context, b ast.Branch, c ast.Chi
 				}
 			}
 
+			if pair.One("v") == nil {
+				// ...rest is pattern syntax
+				return nil, fmt.Errorf("tuple attribute without a value: %s", pair.Scanner().Context(parser.DefaultLimit))
+			}
 			v, err := pc.CompileExpr(ctx, pair.One("v").(ast.Branch))
 			if err != nil {
 				return nil, err
